@@ -31,7 +31,8 @@ from ..gen import hazards as gh
 from ..seams import fs as fsseam
 from ..seams.clock import SimClock
 
-ERROR_KINDS = set(fsseam.OPEN_ERRNOS) | {"read_eio", "refused", "http404", "http500", "timeout", "reset"}
+ERROR_KINDS = set(fsseam.OPEN_ERRNOS) | set(fsseam.EXTRA_ERRNOS) | {"read_eio", "refused", "http404", "http500",
+                                                                    "timeout", "reset"}
 CONTENT_KINDS = {"torn", "flip", "garbage", "truncated"}
 URLOPEN_KINDS = ["refused", "http404", "http500", "timeout", "reset", "truncated", "garbage"]
 SWEEP_FRACS = [0.0, 0.5, 0.999]
@@ -44,9 +45,12 @@ SUPPRESSIBLE = ["myst", "myst.html", "myst.topmatter", "myst.directive_option", 
                 "myst.attribute", "myst.duplicate_def", "myst.directive_comments", "docutils"]
 
 
-def kinds_for(op: str) -> list[dict]:
-    """Every applicable single fault for one seam call (the sweep's fault alphabet)."""
+def kinds_for(op: str, extended: bool = False) -> list[dict]:
+    """Every applicable single fault for one seam call (the sweep's fault alphabet; ``extended`` adds the rarer
+    errnos that only sampled plans draw)."""
     out: list[dict] = []
+    if extended and op in ("stat", "lstat", "open"):
+        out += [{"kind": k} for k in fsseam.EXTRA_ERRNOS]
     if op in ("stat", "lstat"):
         out += [{"kind": k} for k in fsseam.STAT_ERRNOS]
     elif op == "open":
@@ -464,7 +468,7 @@ def _resolve_pick(pick: dict, trace: list):
     if not cands:
         cands = trace
     t = cands[min(len(cands) - 1, int(pick["u"] * len(cands)))]
-    kinds = kinds_for(t["op"])
+    kinds = kinds_for(t["op"], extended=True)
     k = dict(kinds[min(len(kinds) - 1, int(pick["ku"] * len(kinds)))])
     if "frac" in k:
         k["frac"] = pick["frac"]
